@@ -355,7 +355,7 @@ TABLE = {
     'ModelWeighted(array).predict_rdm': _model('ModelWeighted', 'predict_rdm', False),
     'ModelSelect(RDMs).predict_rdm': _model('ModelSelect', 'predict_rdm', True),
     'ModelInterpolate(RDMs).predict_rdm': _model('ModelInterpolate', 'predict_rdm', True),
-    'fit_regress': _fit('fit_regress'), 'fit_regress(corr)': _fit('fit_regress', 'corr'), 'fit_regress_nn': _fit('fit_regress_nn'),
+    'fit_regress': _fit('fit_regress'), 'fit_regress(corr)': _fit('fit_regress', 'corr'),
     'fit_select': _fit('fit_select'),
     'eval_fixed': _inference('eval_fixed'), 'bootstrap_sample': _inference('bootstrap_sample'),
     'bootstrap_sample_rdm': _inference('bootstrap_sample_rdm'), 'bootstrap_sample_pattern': _inference('bootstrap_sample_pattern'),
